@@ -64,6 +64,13 @@ func verifC05ViaConf(k int, v string) ([]string, bool) {
 
 func verifC05Exec(op string) string {
 	f := strings.Fields(op)
+	if f[0] == "reset" { // new history: fresh servers, so that nothing remembered from earlier requests survives
+		for k, v := range verifC05Servers {
+			v.Close()
+			delete(verifC05Servers, k)
+		}
+		return "ok"
+	}
 	dep := -1
 	if strings.HasPrefix(f[0], "corsdep") {
 		dep = verifutil.Atoi(f[0][len("corsdep"):])
@@ -167,7 +174,11 @@ func verifC05Origin(r *verifutil.Rand, allow []string) string {
 	}
 	a := allow[r.Intn(len(allow))]
 	if a == "*" {
-		return r.Pick("https://anything.example", "http://x", "")
+		return r.Pick("https://anything.example", "http://x", "", "null", "evil.example")
+	}
+	if !strings.Contains(a, "://") && r.Chance(1, 2) {
+		// an allowed entry written without a scheme: origins without a scheme (the opaque origin "null", bare hosts)
+		return r.Pick("null", strings.TrimPrefix(a, "//"), "//"+strings.TrimPrefix(a, "//"), "localhost", "example.com")
 	}
 	o := a
 	// drop path
@@ -216,7 +227,66 @@ func verifC05Origin(r *verifutil.Rand, allow []string) string {
 	return o
 }
 
+// a variant of an origin already sent in this history: same host, other scheme / explicit or foreign default port /
+// other letter case — what a per-server memo keyed too coarsely would confuse with it
+func verifC05Variant(r *verifutil.Rand, o string) string {
+	i := strings.Index(o, "://")
+	if i < 0 {
+		return r.Pick("https://", "http://") + strings.TrimPrefix(o, "//")
+	}
+	sch, rest := o[:i], o[i+3:]
+	other := map[string]string{"http": "https", "https": "http"}[strings.ToLower(sch)]
+	if other == "" {
+		other = "https"
+	}
+	host, port := rest, ""
+	if j := strings.LastIndexByte(rest, ':'); j >= 0 && !strings.HasSuffix(rest, "]") {
+		host, port = rest[:j], rest[j+1:]
+	}
+	def := map[string]string{"http": "80", "https": "443"}
+	switch r.Intn(6) {
+	case 0: // other scheme, same authority text
+		return other + "://" + rest
+	case 1: // other scheme with the first scheme's default port made explicit
+		if port == "" {
+			port = def[strings.ToLower(sch)]
+		}
+		return other + "://" + host + ":" + port
+	case 2: // same scheme, default port made explicit or dropped
+		if port == "" {
+			return sch + "://" + host + ":" + def[strings.ToLower(sch)]
+		}
+		return sch + "://" + host
+	case 3:
+		return sch + "://" + host + ":" + r.Pick("80", "443", "8080", "8443")
+	case 4:
+		return strings.ToUpper(sch) + "://" + rest
+	}
+	return other + "://" + host
+}
+
 func verifC05Gen(r *verifutil.Rand, i int, thorough bool) []string {
+	if r.Chance(1, 2) {
+		// a history on ONE server: several requests against the same allow list; later origins are variants of
+		// earlier ones, so a verdict remembered for one origin must not leak to another
+		n := 1 + r.Intn(3)
+		allow := make([]string, 0, n)
+		for j := 0; j < n; j++ {
+			allow = append(allow, verifC05Allowed(r))
+		}
+		out := []string{"reset"}
+		var sent []string
+		k := 2 + r.Intn(3)
+		for j := 0; j < k; j++ {
+			o := verifC05Origin(r, allow)
+			if len(sent) > 0 && r.Chance(2, 3) {
+				o = verifC05Variant(r, sent[r.Intn(len(sent))])
+			}
+			sent = append(sent, o)
+			out = append(out, verifC05Op(o, allow))
+		}
+		return out
+	}
 	n := r.Intn(4)
 	if r.Chance(1, 2) {
 		n = 1
@@ -227,15 +297,15 @@ func verifC05Gen(r *verifutil.Rand, i int, thorough bool) []string {
 	}
 	if len(allow) == 1 && r.Chance(1, 12) {
 		// the same decision, with the allow list configured through the deprecated singular parameter
-		return []string{"corsdep" + fmt.Sprint(r.Intn(6)) + verifC05Op(verifC05Origin(r, allow), allow)[len("cors"):]}
+		return []string{"reset", "corsdep" + fmt.Sprint(r.Intn(6)) + verifC05Op(verifC05Origin(r, allow), allow)[len("cors"):]}
 	}
-	return []string{verifC05Op(verifC05Origin(r, allow), allow)}
+	return []string{"reset", verifC05Op(verifC05Origin(r, allow), allow)}
 }
 
 func TestVerifC05(t *testing.T) {
 	verifutil.Main(t, &verifutil.Harness{
 		ID: "C05", Exec: verifC05Exec, Gen: verifC05Gen, Quick: 4000, Thorough: 200000,
-		Class: func(op, impl string) string { return impl },
-		NonTrivial: func(op, impl string) bool { return !strings.HasSuffix(op, " 0") },
+		Class: func(op, impl string) string { return strings.Fields(op)[0][:4] + "/" + impl },
+		NonTrivial: func(op, impl string) bool { return op != "reset" && !strings.HasSuffix(op, " 0") },
 	})
 }
